@@ -742,7 +742,9 @@ pub fn execute(ctx: &Ctx, wd: &WorkerDir, job: &Job, p: &Perturb, st: &mut RunSt
                         match r.files.get(name) {
                             Some(rc) if rc.starts_with(content) => {}
                             Some(_) => return Some(Violation { invariant: "I2", detail: format!("after a hard fault class file {name} is not a prefix of its reference") }),
-                            None => return Some(Violation { invariant: "I2", detail: format!("after a hard fault an unexpected file {name} exists") }),
+                            // a stray file under another name (e.g. the temporary of an atomic write that was
+                            // interrupted) is not output of the description: counted, not judged
+                            None => bump(&mut st.enabled, "stray_file_after_failed_run(not_judged)", 1),
                         }
                     }
                 }
